@@ -78,6 +78,13 @@ KERNELS = {
     "ordered_map_valid_partial_old": {"owner": "C19", "mutated": [3]},                           # (i, val), result
     # a generator: the translation returns the lists of the yielded components (starts, ends); `generator` = their number
     "chunks": {"owner": "C19", "generator": 2},
+    # kernels WITHOUT a caller in the library (dead code: only tests/ call them): translated and validated differentially under
+    # C10 only; no theorem about them is an obligation of any property (an edit to dead code raises no semantic alarm)
+    "ordered_left_map_result_size": {"owner": "C10"},
+    "ordered_outer_map_result_size_both_unique": {"owner": "C10"},
+    "ordered_inner_map_left_unique_partial": {"owner": "C10", "mutated": [4, 5]},
+    "ordered_get_last_as_filter": {"owner": "C10"},
+    "streaming_sort_partial": {"owner": "C10", "mutated": [0, 4, 5]},
 }
 C08_NOSRC = ("apply_spans_count", "apply_spans_index_of_first", "apply_spans_index_of_last")
 C08_REDUCE = ("apply_spans_count", "apply_spans_first", "apply_spans_last", "apply_spans_max", "apply_spans_min",
@@ -1196,6 +1203,86 @@ def _random_c19_with_old(rng, n_cases):
 RANDOM["C19"] = _random_c19_with_old
 
 
+# ----------------------------------------------------------------------------------------------------------------------
+# KT4C: the five kernels without a caller in the library, under C10 (translator validation only)
+# ----------------------------------------------------------------------------------------------------------------------
+
+def stream_sort_safe(pos, lens, vals, idx, capv, capi):
+    """every subscript of streaming_sort_partial is in range (a negative one within -len..-1 wraps, still in range)"""
+    pos = list(pos)
+    k = len(pos)
+    dest, total = 0, sum(lens)
+    while dest < total:
+        if k == 0 or len(lens) == 0:
+            return False
+        if pos[0] == lens[0]:
+            return True
+        if not vals or not _inr(pos[0], len(vals[0])):
+            return False
+        mv, mi = vals[0][pos[0]], 0
+        for i in range(1, k):
+            if i >= len(lens):
+                return False
+            if pos[i] == lens[i]:
+                return True
+            if i >= len(vals) or not _inr(pos[i], len(vals[i])):
+                return False
+            if vals[i][pos[i]] < mv:
+                mv, mi = vals[i][pos[i]], i
+        if mi >= len(idx) or not _inr(pos[mi], len(idx[mi])) or not _inr(dest, capi) or not _inr(dest, capv):
+            return False
+        dest += 1
+        pos[mi] += 1
+    return True
+
+
+def random_c10(rng, n_cases):
+    out = []
+    I = lambda v: {"int": int(v)}                     # noqa: E731,E741
+    for t in range(n_cases):
+        nl, nr = rng.randrange(0, 12), rng.randrange(0, 12)
+        what = t % 5
+        if what in (0, 1):
+            # every subscript is guarded by a length test: no call is `_unsafe`, sorted or not
+            left, right = _sorted_keys(rng, nl, what == 1), _sorted_keys(rng, nr, what == 1)
+            if rng.random() < 0.15:
+                left = [rng.randrange(-3, 4) for _ in range(nl)]
+            k = "ordered_left_map_result_size" if what == 0 else "ordered_outer_map_result_size_both_unique"
+            out.append(gcase(k, [arr(left), arr(right)], fuel=nl + nr + 1, _from="random"))
+        elif what == 2:
+            left, right = _sorted_keys(rng, nl, True), _sorted_keys(rng, nr, False)
+            if rng.random() < 0.1:
+                left = [rng.randrange(0, 4) for _ in range(nl)]
+            cl = rng.choice([0, 1, 2, 4, 16])
+            cr = cl if rng.random() < 0.85 else rng.randrange(0, cl + 3)
+            out.append(gcase("ordered_inner_map_left_unique_partial",
+                             [I(rng.randrange(0, 50)), I(rng.randrange(0, 50)), arr(left), arr(right), arr([7] * cl), arr([8] * cr)],
+                             unsafe=cr < cl, fuel=nl + nr + 1, _from="random"))
+        elif what == 3:
+            n = rng.choice([0, 1, 2, 3, rng.randrange(1, 15)])
+            f = sorted(rng.randrange(0, 5) for _ in range(n)) if rng.random() < 0.8 else [rng.randrange(-3, 4) for _ in range(n)]
+            out.append(gcase("ordered_get_last_as_filter", [arr(f)], unsafe=n == 0, _from="random"))   # `result[-1]` of an empty array
+        else:
+            k = rng.choice([1, 2, 2, 3])
+            n = rng.choice([1, 2, 3, rng.randrange(1, 7)])
+            vals = [sorted(rng.randrange(-5, 20) for _ in range(n)) for _ in range(k)]
+            idx = [[100 * c + j for j in range(n)] for c in range(k)]
+            lens = [n if rng.random() < 0.7 else rng.randrange(0, n + 1) for _ in range(k)]
+            pos = [0 if rng.random() < 0.6 else rng.randrange(0, ln + 1) for ln in lens]
+            cap = sum(lens) if rng.random() < 0.85 else rng.randrange(0, sum(lens) + 1)
+            bad = rng.randrange(12)
+            if bad == 0:
+                lens = lens[:-1]
+            elif bad == 1:
+                lens = [ln + 2 for ln in lens]                # lengths beyond the chunks
+            out.append(gcase("streaming_sort_partial", [arr(pos), arr(lens), arr2(vals), arr2(idx), arr([0] * cap), arr([0] * cap)],
+                             unsafe=not stream_sort_safe(pos, lens, vals, idx, cap, cap), fuel=k * n + sum(lens) + 2, _from="random"))
+    return out
+
+
+RANDOM["C10"] = random_c10
+
+
 def extra_cases(owner, cases, tier, rng):
     owner = owner.upper()
     nd = QUICK_DERIVED if tier == "quick" else 20 * QUICK_DERIVED
@@ -1340,8 +1427,9 @@ def select_for_mode(case, mode, tier):
 # hooking into the owner's harness
 # ----------------------------------------------------------------------------------------------------------------------
 
-def install(g, owner):
-    """wrap the harness functions in the module namespace `g` so that `gen_kernel` cases are added and routed here"""
+def install(g, owner, gen_module=True):
+    """wrap the harness functions in the module namespace `g` so that `gen_kernel` cases are added and routed here
+    (`gen_module=False`: the owner has no `Props/<owner>Gen.lean` — its kernels are validated differentially only)"""
     def is_gen(case):
         return isinstance(case, dict) and case.get("op") == "gen_kernel"
 
@@ -1384,5 +1472,5 @@ def install(g, owner):
         g["compare"] = cmp
     mods = g.get("LEAN_MODULES")
     extra = f"Exetera.Props.{owner.upper()}Gen"
-    if isinstance(mods, list) and extra not in mods:
+    if gen_module and isinstance(mods, list) and extra not in mods:
         mods.append(extra)
